@@ -22,6 +22,8 @@ CLAIMED = {
             "M<=3 bins 1D, shapes 2x2 / 2x1x2 (quick) + 3x2 / 2x2x2 (thorough), <=2 bins per axis for transformed classes; QF_NRA + UF", "DESIGN.md 5/C16"),
     "C11": ("Bounded symbolic model checking of Histogram1D.__getitem__/select and HistogramND.__getitem__/select with symbolic indices (ints, slice bounds, boolean mask entries, index array entries are symbolic and forked over their range): the result's bins/contents/errors2 are the Python/numpy-indexed lists of the symbolic originals, ints drop their axis and name, contiguous 1D slices conserve total+underflow+overflow, non-contiguous selections report NaN, refusals (reversed, wrong mask size, too many / out-of-range indices), source untouched.",
             "1D M=3 (thorough: also M=2,4), 2D 2x3, 3D 2x2x2; explicit positive step and unsorted index arrays are accepted as either refused or well-formed (stated leniency)", "DESIGN.md 5/C11"),
+    "C12": ("Bounded symbolic model checking of the (derivation x later mutation x mutated side) matrix over 1D/2D, static and adaptive histograms: for every listed derivation (copy, + - * /, normalize, merge_bins, slices/masks/index arrays, T, partial_normalize, accumulate, projection, integer/slice select, JSON round trip, sum()) and every later mutation (fill, fill_n incl. adaptive growth by a symbolic number of bins, += *= /=, dtype change, metadata edit, in-place merge) the snapshot of the object NOT mutated is term-equal before and after for all symbolic contents/arguments, and both objects stay well-formed; copy() equality and the usable empty copy. The numpy model implements views, so memory sharing through slices is visible.",
+            "M=3 bins 1D, 2x2 2D, growth by <=3 bins, ~390 (derivation, mutation, side) instances (quick); thorough adds the remaining combinations", "DESIGN.md 5/C12"),
 }
 
 REASONS_NOT_YET = "check not built yet (work in progress; see DESIGN.md section 8 build order)"
